@@ -551,6 +551,11 @@ nfa, with no epsilon transition
         dfa = self.to_deterministic()
         enfa = dfa.copy()
         trash = State("TrashNode")
+        counter = 0
+        while trash in dfa.states:
+            # The trash state must not be a state of the automaton
+            trash = State("TrashNode" + str(counter))
+            counter += 1
         enfa.add_final_state(trash)
         for state in dfa.states:
             if state in dfa.final_states:
